@@ -366,6 +366,12 @@ class IOPort(BaseIOPort):
 
     receive.__doc__ = BaseIOPort.receive.__doc__
 
+    def __iter__(self):
+        # Iteration ends when the input port closes (also when it does
+        # so by itself): the wrapper's own closed flag says nothing
+        # about that.
+        return iter(self.input)
+
 
 class EchoPort(BaseIOPort):
     def _send(self, message):
